@@ -24,6 +24,10 @@ import (
 
 var vfErrInjected = errors.New("injected storage failure")
 
+// vfL1Sync: worlds created while this is set have a registry model that maintains the L1
+// handle cache of the running process like the file-system registry does.
+var vfL1Sync bool
+
 type vfWorld struct {
 	stores   sop.StoreRepository
 	registry *vfRegistry
@@ -45,7 +49,7 @@ type vfWorld struct {
 func vfNewWorld() *vfWorld {
 	w := &vfWorld{maxTime: 15 * time.Minute}
 	w.stores = &vfStores{inner: mocks.NewMockStoreRepository(), w: w}
-	w.registry = &vfRegistry{lookup: map[sop.UUID]sop.Handle{}, w: w}
+	w.registry = &vfRegistry{lookup: map[sop.UUID]sop.Handle{}, w: w, l1sync: vfL1Sync}
 	w.blobs = &vfBlobs{inner: mocks.NewMockBlobStore(), ids: map[sop.UUID]bool{}, w: w}
 	w.l2 = mocks.NewMockClient()
 	w.tlog = &vfTLog{w: w, logs: map[sop.UUID][]int{}, prio: map[sop.UUID][]byte{}}
@@ -145,6 +149,20 @@ func (s *vfStores) Replicate(ctx context.Context, stores []sop.StoreInfo) error 
 type vfRegistry struct {
 	lookup map[sop.UUID]sop.Handle
 	w      *vfWorld
+	// l1sync: maintain the running process's L1 handle cache the way fs.registryOnDisk does
+	// (set on Add/Update/UpdateNoLocks, delete on Remove); off by default
+	l1sync bool
+}
+
+func (r *vfRegistry) cacheSet(h sop.Handle) {
+	if r.l1sync {
+		cache.GetGlobalL1Cache(r.w.l2).Handles.Set([]sop.KeyValuePair[sop.UUID, sop.Handle]{{Key: h.LogicalID, Value: h}})
+	}
+}
+func (r *vfRegistry) cacheDelete(id sop.UUID) {
+	if r.l1sync {
+		cache.GetGlobalL1Cache(r.w.l2).Handles.Delete([]sop.UUID{id})
+	}
 }
 
 func (r *vfRegistry) Get(ctx context.Context, lids []sop.RegistryPayload[sop.UUID]) ([]sop.RegistryPayload[sop.Handle], error) {
@@ -180,6 +198,7 @@ func (r *vfRegistry) Add(ctx context.Context, hs []sop.RegistryPayload[sop.Handl
 				return errors.New("registry: handle already exists")
 			}
 			r.lookup[h.LogicalID] = h
+			r.cacheSet(h)
 		}
 	}
 	return nil
@@ -191,6 +210,7 @@ func (r *vfRegistry) Update(ctx context.Context, hs []sop.RegistryPayload[sop.Ha
 				return vfErrInjected
 			}
 			r.lookup[h.LogicalID] = h
+			r.cacheSet(h)
 		}
 	}
 	return nil
@@ -202,6 +222,7 @@ func (r *vfRegistry) UpdateNoLocks(ctx context.Context, allOrNothing bool, hs []
 				return vfErrInjected
 			}
 			r.lookup[h.LogicalID] = h
+			r.cacheSet(h)
 		}
 	}
 	return nil
@@ -213,6 +234,7 @@ func (r *vfRegistry) Remove(ctx context.Context, lids []sop.RegistryPayload[sop.
 				return vfErrInjected
 			}
 			delete(r.lookup, id)
+			r.cacheDelete(id)
 		}
 	}
 	return nil
